@@ -329,6 +329,32 @@ def scaling_input(kind: str, k: int) -> bytes:
         rows = [orow, jwire.mkrow("triple", {"s": ("bnode", "a"), "p": ("bnode", "b"),
                                              "o": ("literal", "a" + "\u0301\u0323" * k, None, None)})]
         return jwire.write_delimited([jwire.enc_frame(rows)])
+    if kind == "slot-reuse":
+        # sqrt(k) prefixes x sqrt(k) names all used once, then k/10 name entries that overwrite a
+        # slot in use (each followed by one use): work per overwrite must not grow with the
+        # number of IRIs seen so far
+        import math  # noqa: PLC0415
+
+        n = max(2, int(math.isqrt(k)))
+        o = jwire.mkrow("options", {**opts, "max_name_table_size": n, "max_prefix_table_size": n})
+        rows = [o]
+        rows += [jwire.mkrow("prefix", {"id": i + 1, "value": f"http://p{i}/"}) for i in range(n)]
+        rows += [jwire.mkrow("name", {"id": j + 1, "value": f"n{j}"}) for j in range(n)]
+        for i in range(n):
+            for j in range(n):
+                rows.append(jwire.mkrow("triple", {"s": ("iri", i + 1, j + 1), "p": ("bnode", "p"),
+                                                   "o": ("bnode", "o")}))
+        for m in range(k // 10):
+            rows.append(jwire.mkrow("name", {"id": 1, "value": f"again{m}"}))
+            rows.append(jwire.mkrow("triple", {"s": ("iri", 1, 1), "p": ("bnode", "p"),
+                                               "o": ("bnode", "o")}))
+        return jwire.write_delimited([jwire.enc_frame(rows[i:i + 500])
+                                      for i in range(0, len(rows), 500)])
+    if kind == "one-huge-frame":
+        # a single frame of k bytes (one long literal), read from a non-seekable source
+        rows = [orow, jwire.mkrow("triple", {"s": ("bnode", "a"), "p": ("bnode", "b"),
+                                             "o": ("literal", "z" * k, None, None)})]
+        return jwire.write_delimited([jwire.enc_frame(rows)])
     if kind == "many-namespaces":
         # k namespace declarations with distinct labels in one frame, then one statement
         o = jwire.mkrow("options", {**opts, "version": 2, "max_prefix_table_size": 8})
@@ -381,35 +407,47 @@ def scaling_input(kind: str, k: int) -> bytes:
 SCALING = (("rows-per-frame", 50_000), ("frames", 20_000), ("entries", 50_000),
            ("distinct-statements", 20_000), ("integer-digits", 200_000), ("decimal-digits", 200_000),
            ("repeated-quoted", 2_000), ("combining-marks", 8_000), ("ns-then-frames", 150),
-           ("many-namespaces", 8_000))
+           ("many-namespaces", 8_000), ("slot-reuse", 10_000), ("one-huge-frame", 6_000_000))
 # (size multiplier, ratio above which growth counts as super-linear, items expected per unit)
 SCALING_STEP = {"integer-digits": (16, 24.0), "decimal-digits": (16, 24.0)}
 # (sizes at which a quadratic term becomes visible differ a lot between the integrations)
 SCALING_K = {("rdflib", "many-namespaces"): 2_000}
 
 
-def count_items(api: str, reader: str, data: bytes):
+def count_items(api: str, reader: str, data: bytes, nonseekable: bool = False):
     """Run one parser over `data` and only count what it delivers (no conversion of the items:
     the harness must not add work of its own to what is being timed)."""
+    if nonseekable:
+        _bytesio = io.BytesIO
+
+        class _Src:  # noqa: N801
+            """io.BytesIO stand-in inside this call: a non-seekable raw source instead."""
+
+            def __new__(cls, b):
+                return faultio.ScheduleRaw(b)
+
+        io_BytesIO = _Src
+    else:
+        io_BytesIO = io.BytesIO
     try:
         if api == "generic":
             from pyjelly.integrations.generic import parse as gp  # noqa: PLC0415
 
             if reader == "flat":
-                n = sum(1 for _ in gp.parse_jelly_flat(io.BytesIO(data)))
+                n = sum(1 for _ in gp.parse_jelly_flat(io_BytesIO(data)))
             elif reader == "grouped":
-                n = sum(len(list(s)) for s in gp.parse_jelly_grouped(io.BytesIO(data)))
+                n = sum(len(list(s)) for s in gp.parse_jelly_grouped(io_BytesIO(data)))
             else:
-                n = sum(1 for _ in gp.parse_jelly_to_graph(io.BytesIO(data)))
+                n = sum(1 for _ in gp.parse_jelly_to_graph(io_BytesIO(data)))
         else:
             from pyjelly.integrations.rdflib import parse as rp  # noqa: PLC0415
 
             if reader == "flat":
-                n = sum(1 for _ in rp.parse_jelly_flat(io.BytesIO(data)))
+                n = sum(1 for _ in rp.parse_jelly_flat(io_BytesIO(data)))
             elif reader == "grouped":
-                n = sum(len(g) for g in rp.parse_jelly_grouped(io.BytesIO(data)))
+                n = sum(len(g) for g in rp.parse_jelly_grouped(io_BytesIO(data)))
             else:
-                n = len(rp.parse_jelly_to_graph(io.BytesIO(data)))
+                n = len(rp.parse_jelly_to_graph(io_BytesIO(data)))
     except Exception as e:  # noqa: BLE001
         return [], type(e).__name__
     return [None] * n, None
@@ -426,15 +464,17 @@ def scaling_shard(job) -> dict:
             continue
         if kind == "repeated-quoted" and api == "rdflib":
             continue  # (quoted triples are not RDF 1.1)
+        if kind == "one-huge-frame" and reader != "flat":
+            continue
         times = []
         step, limit = SCALING_STEP.get(kind, (4, 9.0))
-        single = kind in SCALING_STEP or kind in ("entries", "combining-marks",
-                                                  "many-namespaces")  # (one statement)
+        single = kind in SCALING_STEP or kind in ("entries", "combining-marks", "many-namespaces",
+                                                  "one-huge-frame")  # (one statement)
         k = SCALING_K.get((api, kind), job[1])
         for mult in (1, step):
             data = scaling_input(kind, k * mult)
             t0 = time.process_time()
-            items, exc = count_items(api, reader, data)
+            items, exc = count_items(api, reader, data, nonseekable=kind == "one-huge-frame")
             times.append(time.process_time() - t0)
             if exc is not None or len(items) < (1 if single or reader != "flat" else k * mult):
                 acc.extra["harness"] = f"scaling input {kind} x{mult} not parsed: {exc} {len(items)}"
